@@ -208,7 +208,10 @@ package dns
 //@   ensures ok:   ret3 == nil ==> off <= ret2 && (off <= len(msg) ==> ret2 <= len(msg))
 //@   ensures fail: ret3 != nil ==> ret2 == len(msg)
 
-//@ func unpackDataAplPrefix [C01 C02]
+// the address handed out is the wire octets as they came (padded with zero octets to the family's length), not a
+// masked or otherwise normalised form: records that differ on the wire differ after decoding
+//@ func unpackDataAplPrefix [C01 C02 C20]
+//@   exit raw: ret2 == nil ==> ref(ret0.Network.IP) == ref(ip) && sliceoff(ret0.Network.IP) == sliceoff(ip) && len(ret0.Network.IP) == len(ip) [C01 C20]
 //@   assert at "unrecognized APL address family" e1: family != 1 && family != 2 [C01]
 //@   assert at "APL prefix too long" e2: (family == 1 && prefix > 32) || (family == 2 && prefix > 128) [C01]
 //@   assert at "APL length too long" e3: (family == 1 && nlen % 128 > 4) || (family == 2 && nlen % 128 > 16) [C01]
